@@ -18,7 +18,7 @@ Section GenEqDelaunay.
   Proof.
     intros. unfold rg_render_TriangleIByIndex_Less.
     generalize (znth i a (0, 0, 0)%Z) (znth j a (0, 0, 0)%Z). intros [[a0 a1] a2] [[b0 b1] b2].
-    same_as TRANSL_render_Less.
+    unfold Canon.less. cbn [fst snd]. by_cases TRANSL_render_Less.
   Qed.
   Lemma Canonical_eq : forall t : Canon.tri, rg_render_TriangleI_Canonical t = Canon.canon t.
   Proof.
@@ -38,7 +38,7 @@ Section GenEqDelaunay.
   Proof.
     intros. unfold rg_sdf_Triangle2_InCircumcircle, in_circumcircle. rewrite Circumcenter_eq.
     change rg_sdf_epsilon with (@Delaunay.eps O). cbn [fst snd].
-    destruct (circumcenter p1 p2 p3); same_as TRANSL_render_InCircumcircle.
+    destruct (circumcenter p1 p2 p3); by_cases TRANSL_render_InCircumcircle.
   Qed.
 
   Lemma VecSet_Min_eq : forall vs : list V2, rg_v2_VecSet_Min vs = v2set_min vs.
